@@ -169,8 +169,10 @@ def translate(src):
     return "".join(out)
 
 
-def generate(api):
+def generate(api, force_stub=False):
     try:
+        if force_stub:
+            raise Rs2vError("translation rejected: %s" % force_stub)
         text = HEAD + translate(api.read(REL))
     except (Rs2vError, api.GenError, KeyError, IndexError, TypeError, AttributeError) as e:
         text = HEAD + "(* NOT UNDERSTOOD: %s *)\n" % str(e).replace("*)", "* )").replace("(*", "( *") + STUB
